@@ -71,6 +71,9 @@ func main() {
 	var manyFiles []uintptr
 	null, _ := os.Open("/dev/null")
 	hx.Cases(func(c map[string]any) map[string]any {
+		if c["kind"] == "profile" {
+			return profileCase(c, scratch, null)
+		}
 		args := []string{}
 		if c["args"] != nil {
 			for _, a := range c["args"].([]any) {
